@@ -65,8 +65,11 @@ def _run(level, cfg, events, var, perm):
                                  wall=var.get("wall", "jump"), atimeout=var.get("atimeout", False),
                                  loop=var.get("loop", False), flavours=var.get("flavours"),
                                  entry2=var.get("entry2"))
-    # the decorator goes through Policy.call, which classifies the raised exception once more
-    return drop_bclassify(obs) if var.get("entry2") else obs
+    # the decorator and the Policy wrappers go through Policy.call, which classifies the raised
+    # exception once more
+    wrapped = var.get("entry2") or var["entry"].split(".")[0] in ("Policy", "AsyncPolicy", "RetryPolicy",
+                                                                   "AsyncRetryPolicy")
+    return drop_bclassify(obs) if wrapped else obs
 
 
 def _full(level, cfg):
@@ -271,10 +274,16 @@ WALL = [{"entry": "Retry", "wall": "jump", "wallgroup": "s"},
 SHARED = [{"entry": "Retry", "entry2": "decorator", "place": "ctor", "every": 5},
           {"entry": "AsyncRetry", "entry2": "async-decorator", "place": "ctor", "every": 5, "permute": True}]
 
+# the wrappers around the retry component must deliver the same outcome (every 2nd behaviour)
+WRAPPED = [{"entry": "Policy", "place": "call", "every": 2},
+           {"entry": "AsyncRetryPolicy", "place": "ctor", "async_callbacks": True, "every": 2, "permute": True},
+           {"entry": "AsyncPolicy", "place": "both", "async_callbacks": "lambda", "every": 2}]
+
 for _p in ("C01", "C02", "C03", "C04", "C05", "C10", "C11", "C13", "C14", "C16"):
     profile(_p, mc=f"RetryMC_{_p}.cfg", export=f"RetryMC_{_p}x.cfg",
             variants=WALL + TIMEOUT_SAMPLED if _p == "C02" else (FOUR + TIMEOUT_VARIANTS if _p in ("C13", "C01") else
-                                               (FOUR[:3] + SHARED if _p == "C10" else FOUR)),
+                                               (FOUR[:3] + SHARED if _p == "C10" else
+                                                (FOUR + WRAPPED if _p in ("C11", "C04") else FOUR))),
             n_random={"quick": 1500, "thorough": 30000},
             exports_extra={"C10": ["RetryMC_C10y.cfg"], "C05": ["RetryMC_C05y.cfg"]}.get(_p, []))
 
